@@ -56,10 +56,13 @@ def run(rep, tier, seed, model_ok=True, effort=1):
                 "on the status text git printed; non-trivial = distinct case with a dirty working tree")
     rep.exhaustive = True
     items, meta = [], []
-    combos = [(k, t, ad) for k in STATUSES for t in ("a.txt", "other.txt") for ad in (False, True)]
+    # the pattern file is also configured under the spelling "./a.txt" (bumpver normalises configured paths through pathlib's glob;
+    # git prints root-relative paths)
+    combos = [(k, t, ad, "a.txt") for k in STATUSES for t in ("a.txt", "other.txt") for ad in (False, True)]
+    combos += [(k, "a.txt", ad, "./a.txt") for k in STATUSES for ad in (False, True)]
     extra = [("modified-unstaged", "other.txt", True, "untracked-second"), ("untracked", "other.txt", False, "modified-second")]
-    for kind, target, allow_dirty in combos:
-        prj = project.TempProject("MAJOR.MINOR.PATCH", "1.2.3", files={"a.txt": ["ver = {version}"]}, contents={"other.txt": "unrelated\n"},
+    for kind, target, allow_dirty, spelling in combos:
+        prj = project.TempProject("MAJOR.MINOR.PATCH", "1.2.3", files={spelling: ["ver = {version}"]}, contents={"other.txt": "unrelated\n"},
                                   commit=True, tag=False, push=False, vcs="git")
         with prj:
             make_status(prj, kind, target)
@@ -70,14 +73,14 @@ def run(rep, tier, seed, model_ok=True, effort=1):
             code, out, logs, exc = prj.run(impl, args)
             after = prj.snapshot()
             commits_after = len(prj.git("log", "--oneline").splitlines())
-            rep.case((kind, target, allow_dirty), nontrivial=kind != "clean")
+            rep.case((kind, target, allow_dirty, spelling), nontrivial=kind != "clean")
             rep.count("status=" + kind)
             pattern_file = target == "a.txt"
             dirty = kind != "clean" and not (kind == "untracked" and not pattern_file)
             expect_abort = (dirty and not allow_dirty) or (kind != "clean" and pattern_file)
             if kind == "deleted" and pattern_file:
                 expect_abort = True
-            inp = dict(status=kind, file=target, allow_dirty=allow_dirty, git_status=status_text, args=args, exit=code, logs=logs[-4:])
+            inp = dict(status=kind, file=target, configured_as=spelling, allow_dirty=allow_dirty, git_status=status_text, args=args, exit=code, logs=logs[-4:])
             if expect_abort:
                 if code == 0 or commits_after != commits_before:
                     rep.violation("update proceeded although %s is %s" % (target, kind), input=inp, **{"class": "dirty-not-blocked"})
